@@ -43,6 +43,8 @@ pub struct Rec {
     pub a1: String,
     pub a2: String,
     pub at: Instant,
+    /// the clock the `timer` crate schedules by
+    pub wall: std::time::SystemTime,
 }
 
 type Marks = Arc<Mutex<Vec<Rec>>>;
@@ -55,6 +57,7 @@ struct Mark {
 impl Action for Mark {
     fn execute(&self, arguments: &[Data], global: &GlobalData) -> Result<Data, String> {
         let at = Instant::now();
+        let wall = std::time::SystemTime::now();
         let s = |i: usize| arguments.get(i).map(|d| d.to_string()).unwrap_or_default();
         self.log.lock().unwrap_or_else(|e| e.into_inner()).push(Rec {
             sess: global.session_id,
@@ -62,6 +65,7 @@ impl Action for Mark {
             a1: s(1),
             a2: s(2),
             at,
+            wall,
         });
         Ok(Data::Boolean(true))
     }
@@ -339,6 +343,9 @@ pub struct Obs {
     pub hb_stall: i64,
     /// which sender session threads ended with a panic
     pub panicked: Vec<bool>,
+    /// wall-clock stamps of the `pre` mark of send k and of the arrivals of event k
+    pub wall_pre: BTreeMap<usize, std::time::SystemTime>,
+    pub wall_recv: Vec<(usize, std::time::SystemTime)>,
 }
 
 fn start(xml: String, marks: &Marks, executor: &FsmExecutor) -> Result<ScxmlSession, String> {
@@ -487,6 +494,7 @@ pub fn run_case(case: &Case, delays: &BTreeMap<usize, i64>, expect_n: usize, hb:
             "pre" => {
                 if let Some(k) = num {
                     obs.sends.insert(k, (t, None, r.a2.clone()));
+                    obs.wall_pre.insert(k, r.wall);
                 }
             }
             "post" => {
@@ -522,7 +530,10 @@ pub fn run_case(case: &Case, delays: &BTreeMap<usize, i64>, expect_n: usize, hb:
             "recv" => {
                 // event name e.<k>
                 match r.a1.strip_prefix("e.").and_then(|x| x.parse::<usize>().ok()) {
-                    Some(k) => obs.recvs.push((k, who, t, r.a2.clone())),
+                    Some(k) => {
+                        obs.recvs.push((k, who, t, r.a2.clone()));
+                        obs.wall_recv.push((k, r.wall));
+                    }
                     None => obs.problems.push(format!("unexpected event {}", r.a1)),
                 }
             }
@@ -1271,6 +1282,19 @@ fn judge(p: &Prepared, out: &Outcome, model: &mut Model, rep: &mut Report) {
             // verdicts that rest on the promptness of the timer crate's own threads are only taken
             // from a calm run; from a stalled one they are the documented asynchrony of `Stop`
             // (known finding) or simply undecided
+            if sig == "C16:early" {
+                // `timer` schedules by the wall clock, the stamps are monotonic: was it early by its own clock too?
+                let k = f.split(':').nth(1).and_then(|x| x.parse::<usize>().ok()).unwrap_or(usize::MAX);
+                let d = *p.delays.get(&k).unwrap_or(&0);
+                let early_on_wall_clock = out.obs.wall_recv.iter().filter(|(kk, _)| *kk == k).any(|(_, w)| match out.obs.wall_pre.get(&k) {
+                    Some(pre) => w.duration_since(*pre).map(|e| (e.as_micros() as i64) < d * 1000).unwrap_or(true),
+                    None => true,
+                });
+                if !early_on_wall_clock {
+                    rep.count("early_only_on_the_monotonic_clock_wall_clock_stepped");
+                    continue;
+                }
+            }
             if out.stalled {
                 match sig.as_str() {
                     "C16:terminated-delivered" => sig = "C16:terminated-delivered:stop-latency-under-stall".to_string(),
